@@ -112,6 +112,46 @@ pub struct C2 {
     c: C,
 }
 
+// documented types whose real declaration blocks join the C05 universe of file-mates (tools/props/c05.py):
+// documentation with empty lines, in every way the derive can receive one
+/** block doc
+
+with a blank line, and one at a field */
+#[derive(TS)]
+pub struct DocBlank {
+    /** field
+
+    doc */
+    pub a: i32,
+    /// line doc
+    ///
+    /// after an empty `///` line
+    pub b: Option<A>,
+}
+
+#[doc = "ends with a newline\n"]
+#[doc = "\nbegins with one"]
+#[doc = ""]
+#[doc = "\n\n\n"]
+#[derive(TS)]
+pub enum DocNl {
+    /// variant doc
+    ///
+    A,
+    B { x: C },
+}
+
+fn doc_info<T: TS + 'static + ?Sized>() -> String {
+    format!(
+        "{}\u{2}{}",
+        guard(|| T::ident()),
+        guard(|| match T::export_to_string() {
+            Ok(s) => s,
+            Err(e) => format!("\u{0}ERR {e:?}"),
+        })
+    )
+}
+
 struct Rec(Vec<String>);
 impl TypeVisitor for Rec {
     fn visit<T: TS + 'static + ?Sized>(&mut self) {
@@ -210,6 +250,7 @@ pub fn run(f: &[String]) -> Result<Vec<String>, String> {
     match f[0].as_str() {
         // one line of `\u{2}`-separated fields per type
         "info" => Ok(all_info().into_iter().map(|v| v.join("\u{2}")).collect()),
+        "docinfo" => Ok(vec![doc_info::<DocBlank>(), doc_info::<DocNl>()]),
         "env" => {
             if arg(1)? == "-" {
                 std::env::remove_var("TS_RS_EXPORT_DIR");
